@@ -949,6 +949,10 @@ def run_program(chk, da, dask, _materialize, prog, sources, want):
                     cls = "wrong-blocks"
                 except Exception as e:  # noqa: BLE001
                     problem, cls = "computing raised " + type(e).__name__ + ": " + str(e)[:120], "compute-raises"
+            if problem and cls in ("compute-raises", "wrong-blocks") and not computes_right_without_rechunks(q, sources, da):
+                chk.count("prog-rechunk:program-fails-without-any-rechunk(C01)")
+                ok_all = False
+                problem = None
             if problem:
                 # does the un-optimised graph do it right?
                 unopt = None
@@ -980,13 +984,49 @@ def run_program(chk, da, dask, _materialize, prog, sources, want):
             ok = ok_u = False
             err = type(e).__name__ + ": " + str(e)[:150]
         if err or not ok or not ok_u:
-            if ok_all:      # not already attributed to a rechunk node above
+            if ok_all and not computes_right_without_rechunks(prog, sources, da):
+                chk.count("prog-rechunk:program-fails-without-any-rechunk(C01)")
+            elif ok_all:      # not already attributed to a rechunk node above
                 chk.violation("program containing rechunk: " + (err or ("optimised result differs from NumPy" if not ok else "unoptimised result differs from NumPy")),
                               {**progs.describe(prog, sources), "ops": ops},
                               signature={"fn": "rechunk-in-program", "class": "program-raises" if err else "program-wrong-value", "root_op": prog[0],
                                          "error": (err or "").split(":")[0]})
         else:
             chk.traces_validated += 1
+
+
+def strip_rechunks(prog):
+    """the same program with every rechunk node replaced by its operand (same values)"""
+    def is_prog(x):
+        return isinstance(x, tuple) and x and isinstance(x[0], str) and x[0] in progs.KNOWN_TAGS and x[0] not in ("const", "nparray")
+
+    def rec(p):
+        if p[0] == "rechunk":
+            return rec(p[1])
+        out = [p[0]]
+        for x in p[1:]:
+            if is_prog(x):
+                out.append(rec(x))
+            elif isinstance(x, tuple) and x and all(is_prog(y) for y in x):
+                out.append(tuple(rec(y) for y in x))
+            elif isinstance(x, list) and x and all(is_prog(y) for y in x):
+                out.append([rec(y) for y in x])
+            else:
+                out.append(x)
+        return tuple(out)
+    return rec(prog)
+
+
+def computes_right_without_rechunks(p, sources, da):
+    """is the program, all rechunks removed, computed correctly?  (False: the failure is not the rechunk's — property C01's business)"""
+    try:
+        q = strip_rechunks(p)
+        with warnings.catch_warnings():
+            warnings.simplefilter("ignore")
+            got = progs.build(q, da, sources, memo={}).compute(scheduler="sync")
+        return progs.values_equal(got, progs.eval_np(q, sources))[0]
+    except Exception:  # noqa: BLE001
+        return False
 
 
 def shrink_rechunk(q, sources, da):
